@@ -10,6 +10,7 @@ import XzVerif.Lemmas.XzIoQ4
 import XzVerif.Lemmas.XzIoQ5
 import XzVerif.Lemmas.XzIoQ2c
 import XzVerif.Lemmas.XzIoQ7
+import XzVerif.Lemmas.XzIoQ9
 
 namespace XzVerif.C17
 open XzVerif.XzIo
@@ -113,40 +114,30 @@ theorem success_complete (c : Cfg α) (hsp : SparseOk c.zero c.ops) (dstExists :
   rw [show s.pc = .done from hd] at this
   exact this hs hf ht
 
-/-- FULL STATEMENT of `failure_cleanup` (not yet proved in this generality): a run that ends without success keeps the
-    source, has unlinked the target it created (unless a call of the clean-up itself was made to fail, or another
-    process renamed the target), and ends with a non-zero exit status, by the signal, or after an EPIPE that came
-    without SIGPIPE. -/
-def failure_cleanup_statement : Prop :=
-  ∀ (α : Type) (c : Cfg α), SparseOk c.zero c.ops → ∀ (dstExists : Bool) (n : Nat),
-    let s := run c dstExists n
-    s.pc = .done → s.success = false →
-      s.fs.srcLinked = true ∧
-      (c.moveAt = none → s.fs.ownLinked = true →
-        ∃ e ∈ s.trace, (e.call = .fstat .dst ∨ e.call = .stat .dst c.o.force ∨ e.call = .unlink .dst) ∧ ∃ k, e.res = .err k) ∧
-      (s.exitSt ≠ 0 ∨ s.userAbort = true ∨ ∃ m, ⟨.write m, .err EPIPE⟩ ∈ s.trace)
-
-/-- Proved part of `failure_cleanup`, for every fault function, signal position and schedule:
+/-- `failure_cleanup`, for every fault function, signal position, foreign rename and schedule:
     (1) once a hard I/O error is in the trace (read/write/poll failing with anything but EINTR/EAGAIN, a failing
-        open, fstat(source), fsync, close(target) or `--force` unlink), a finished run has `success = false`;
+        open, fstat(source), fsync, close(target) or `--force` unlink), a finished run has `success = false`
+        (so has a run that saw invalid input, `c.fin = .error`, or a signal before the coding loop completed — these set
+        `success = false` directly in the model);
     (2) as long as the run has not succeeded — at every prefix, hence at every crash point — the source inode exists
         and no `unlink(source)` has been attempted;
     (3) a finished unsuccessful run is "loud": non-zero exit status, or a signal was seen (xz then dies by it), or a
-        write failed with EPIPE (which in reality comes with SIGPIPE).
-    What is missing from `failure_cleanup_statement`: the clause that the incomplete target has been unlinked (it is
-    checked on the real program for every fault position by the direct oracle and the end-state comparison of
-    tools/props/c17.py). -/
-theorem failure_cleanup_partial (c : Cfg α) (hsp : SparseOk c.zero c.ops) (dstExists : Bool) (n : Nat) :
+        write failed with EPIPE (which in reality comes with SIGPIPE; see findings/C17-epipe-with-sigpipe-ignored.json);
+    (4) when no other process renames the target, a finished unsuccessful run has unlinked the target it created,
+        unless fstat / lstat / unlink of that target were themselves made to fail. -/
+theorem failure_cleanup (c : Cfg α) (hsp : SparseOk c.zero c.ops) (dstExists : Bool) (n : Nat) :
     let s := run c dstExists n
     (s.pc = .done → (∃ e ∈ s.trace, hardErr e = true) → s.success = false) ∧
     (s.success = false → s.fs.srcLinked = true ∧ ∀ e ∈ s.trace, e.call ≠ .unlink .src) ∧
     (s.pc = .done → s.success = false →
-      s.exitSt ≠ 0 ∨ s.userAbort = true ∨ ∃ m, (⟨.write m, .err EPIPE⟩ : Event) ∈ s.trace) := by
+      s.exitSt ≠ 0 ∨ s.userAbort = true ∨ ∃ m, (⟨.write m, .err EPIPE⟩ : Event) ∈ s.trace) ∧
+    (c.moveAt = none → s.pc = .done → s.success = false → s.fs.ownLinked = true →
+      ∃ e ∈ s.trace, cleanupFault e = true) := by
   intro s
   have i := inv_run hsp dstExists n
   have q := q2_runN hsp n _ (inv_start hsp dstExists 0 0) (q2_start (c := c) dstExists 0 0)
   have q7 : Q7 s := q7_runN n _ (q7_start (c := c) dstExists 0 0)
-  refine ⟨?_, ?_, ?_⟩
+  refine ⟨?_, ?_, ?_, ?_⟩
   · intro hd hh
     rcases (q7.hard hh).1 with h | h
     · exact h
@@ -163,6 +154,9 @@ theorem failure_cleanup_partial (c : Cfg α) (hsp : SparseOk c.zero c.ops) (dstE
       rw [hs] at h1; exact absurd h1 (by simp)
   · intro hd hs
     exact q7.sad (by rw [show s.pc = .done from hd]; rfl) hs
+  · intro hm hd hs ho
+    have q9 : Q9 s := q9_runN hm n _ (q9_start (c := c) dstExists 0 0)
+    exact q9.n3 (by rw [show s.pc = .done from hd]; rfl) hs ho
 
 /-- EINTR, EAGAIN and short counts never turn into failure and never lose or duplicate bytes.  If every failed call
     in the trace is an EINTR/EAGAIN on read/write/poll (or the ENOENT of the `--force` unlink) — short counts are not
@@ -232,9 +226,15 @@ example : let c := { exCfg with fault := fun k => if k = 8 then some (.err EINTR
     (∀ e ∈ (run c false 40).trace, benign e = true) ∧ (run c false 40).userAbort = false ∧ (run c false 40).pc = .done ∧
     (⟨.write 2, .err EINTR⟩ : Event) ∈ (run c false 40).trace := by decide +kernel
 
-/-- the hypotheses of `failure_cleanup_partial` (1) are satisfiable: ENOSPC on the first write -/
+/-- the hypotheses of `failure_cleanup` (1) are satisfiable: ENOSPC on the first write; the target is removed -/
 example : let c := { exCfg with fault := fun k => if k = 8 then some (.err 28) else none }
     (run c false 40).pc = .done ∧ (∃ e ∈ (run c false 40).trace, hardErr e = true) ∧ (run c false 40).fs.ownLinked = false ∧
     (run c false 40).exitSt = 1 := by decide +kernel
+
+/-- clause (4) of `failure_cleanup` is not vacuous: fstat(target) fails (call 5), then the write fails (call 8):
+    xz does not know the inode of its target, refuses to unlink it, and the partial file stays — with the fault in the trace -/
+example : let c := { exCfg with fault := fun k => if k = 5 then some (.err 5) else if k = 8 then some (.err 28) else none }
+    (run c false 40).pc = .done ∧ (run c false 40).success = false ∧ (run c false 40).fs.ownLinked = true ∧
+    (∃ e ∈ (run c false 40).trace, cleanupFault e = true) := by decide +kernel
 
 end XzVerif.C17
